@@ -102,6 +102,9 @@ Project(t, asg, grp, dev) ==
 \* order_by ord, reversed columns rev.  Keeps every row (C09); value over the row's ordered partition.
 OrderedFns   == {"cumsum", "cummax", "cummin", "shift", "_row_number"}
 UnorderedFns == {"sum", "max", "min", "count", "size", "_size"}
+\* tags of ill-formed aggregate expressions (C26): "nonagg" = `c + 1` (no aggregation),
+\* "complex" = `c.sum() + 1` / `c.cumsum() + 1` (arithmetic on an aggregate), "argexpr" = `(c + 1).sum()`
+BadFns == {"nonagg", "complex", "argexpr"}
 WinVal(rows, i, a, part, ord, rev, dev) ==
   LET me   == rows[i]
       fn   == a[2]
@@ -246,7 +249,7 @@ ProjectOK(asg, grp, cols) ==
        LET a == asg[i] IN
        /\ (a[3] = "" \/ Has(cols, a[3]))
        /\ (a[3] = "") = (a[2] \in ZeroArgAggs)
-       /\ a[2] \notin OrderedFns
+       /\ a[2] \notin OrderedFns /\ a[2] \notin BadFns
        \* a column produced here may be read only by its own assignment
        /\ \A j \in 1..Len(asg) : i # j => asg[j][3] # a[1]
 RenameOK(map, cols) ==
@@ -259,6 +262,9 @@ JoinOK(jt, on, lcols, rcols) ==
   /\ jt \in {"INNER", "LEFT", "RIGHT", "FULL", "CROSS"}
   /\ (jt = "CROSS") => (Len(on) = 0)
   /\ \A p \in 1..Len(on) : Has(lcols, on[p][1]) /\ Has(rcols, on[p][2])
+\* check_all_common_keys_in_equi_spec: every column the two sides share is an equality key (c = c)
+CommonAreKeys(on, lcols, rcols) ==
+  \A c \in SetOf(lcols) \cap SetOf(rcols) : \E p \in 1..Len(on) : on[p][1] = c /\ on[p][2] = c
 ConcatOK(id, lcols, rcols) ==
   /\ SetOf(lcols) = SetOf(rcols)
   /\ (id = "" \/ ~Has(lcols, id))
